@@ -1316,8 +1316,23 @@ class Interp:
         if c.get('diverges'):
             self.event('diverge', st, fid, bi, t.get('span'), callee=target, args=args, extra={'exp': t.get('exp')})
             return ('never',)
-        # unknown call: havoc memory reachable through pointers, and locals passed by &mut
-        self.havoc_args(st, args)
+        # unknown call: havoc memory reachable through pointers, and locals passed by &mut.  A local handed over by a plain
+        # shared borrow (`&local`, no interior mutability in its type) cannot be changed by the callee
+        skip = set()
+        body = self.bodies.get(fid[-1][0]) if fid else None
+        if body is not None:
+            for k, a in enumerate(t['args']):
+                if a.get('k') not in ('copy', 'move') or a['place']['proj']:
+                    continue
+                tmp = a['place']['l']
+                defs = [s_ for blk_ in body['blocks'] for s_ in blk_['stmts'] if s_['k'] == 'assign' and s_['place']['l'] == tmp and not s_['place']['proj']]
+                if len(defs) == 1 and defs[0]['rv']['k'] == 'ref' and defs[0]['rv'].get('mut') is False and not defs[0]['rv']['place']['proj']:
+                    lty = (body.get('locals') or [])
+                    l = defs[0]['rv']['place']['l']
+                    ty = lty[l] if l < len(lty) else ''
+                    if 'Cell<' not in ty and 'Mutex' not in ty and 'Atomic' not in ty:
+                        skip.add(k)
+        self.havoc_args(st, [a for k, a in enumerate(args) if k not in skip])
         self.havoc(st, 'call ' + target)
         return ('call', target, tuple(args), next(self.counter))
 
@@ -1342,7 +1357,25 @@ class Interp:
         for a0 in args:
             # references reachable inside by-value aggregates (closure environments, iterator adaptors) count as well:
             # the callee can write through every `&mut local` it is handed, however deeply it is wrapped
-            cands = [a0] if a0[0] == 'addr' else [x for x in subterms(a0) if isinstance(x, tuple) and x and x[0] == 'addr']
+            # ... but only where the value really contains the reference: inside aggregates and merges, not inside the argument
+            # list of a call / load term that merely *names* how a scalar was computed
+            cands = []
+
+            def refs(x, depth=0):
+                if not isinstance(x, tuple) or not x or depth > 8 or len(cands) > 32:
+                    return
+                if x[0] == 'addr':
+                    cands.append(x)
+                elif x[0] == 'agg':
+                    for _, v in x[3]:
+                        refs(v, depth + 1)
+                elif x[0] == 'phi':
+                    for _, v in x[2]:
+                        refs(v, depth + 1)
+                elif x[0] == 'ite':
+                    refs(x[2], depth + 1)
+                    refs(x[3], depth + 1)
+            refs(a0)
             for a in cands[:32]:
                 r = root_of(a[1])
                 if r[0] == 'local':
